@@ -446,6 +446,108 @@ def o4_noobs(rep, n):
         rep.prove(f"noobs-est_p[n={n}]", eq_arrays(f.est_p, f.pred_p), cons, linearize=True, inputs=inputs, replay=replay, sample="no observations: est_p = pred_p")
 
 
+# ----------------------------------------------------------------------------------------
+# O5: a step from the state an earlier step left behind, on the production schedule (prediction on a copy, result object applied
+# to the owner; update on a copy that then replaces the owner)
+# ----------------------------------------------------------------------------------------
+def _clone(f):
+    import copy
+
+    return copy.deepcopy(f)
+
+
+def _prod_step(owner, t, obs):
+    """asyncPredict + EstPredictRegistration.processResults, then asyncUpdateEstimate + EstUpdateRegistration.processResults, as far as the filter goes."""
+    c = _clone(owner)
+    c.predict(t)
+    c.getPredictionResult().apply(owner)
+    c2 = _clone(owner)
+    c2.update(obs)
+    return c2
+
+
+def replay_history(d):
+    """A concrete history on the real filter (no abstraction): step 1 observed or not, step 2 observed; against the Kalman recursion."""
+    from resonaate.estimation.kalman.unscented_kalman_filter import UnscentedKalmanFilter
+
+    n, resample = d["n"], d["resample"]
+    x, L, F = np.array(d["x"]), np.array(d["L"]), np.array(d["F"])
+    H, Lr = np.array(d["H"]), np.array(d["Lr"])
+    Lq = np.array(d["Lq"])
+    P, R, Q = L @ L.T, Lr @ Lr.T, Lq @ Lq.T
+    ys = [np.array(d["y1"]), np.array(d["y2"])]
+    worst, where = 0.0, None
+    for sched in ([d["first"] + "O"], ["OO", "-O", "O-O", "--O"])[1 if d.get("all_schedules", True) else 0]:
+        f = UnscentedKalmanFilter(1, 0.0, x, P, LinDyn(F), Q, None, False, False, resample=resample)
+        kx, kp = x.copy(), P.copy()
+        for k, c in enumerate(sched):
+            y = ys[k % 2]
+            f = _prod_step(f, 60.0 * (k + 1), [Obs(H, R, y)] if c == "O" else [])
+            px, pp, fpf = F @ kx, F @ kp @ F.T + Q, F @ kp @ F.T
+            if c == "O":
+                Pi = pp if resample else fpf
+                S, C = H @ Pi @ H.T + R, Pi @ H.T
+                K = C @ np.linalg.inv(S)
+                kx, kp = px + K @ (y - H @ px), pp - K @ S @ K.T
+            else:
+                kx, kp = px, pp
+            sc = max(1.0, np.abs(kx).max(), np.abs(kp).max())
+            e = max(np.abs(f.est_x - kx).max(), np.abs(f.est_p - kp).max(), np.abs(f.pred_p - pp).max()) / sc
+            if e > worst:
+                worst, where = float(e), f"schedule {sched}, step {k + 1}"
+    return worst > 1e-6, {"largest relative deviation from the Kalman recursion": worst, "where": where}
+
+
+def o5_history(rep, n, m, resample, first):
+    """Step 2 of a history.  Step 1 (observed 'O' or not '-') runs on the real code; then the estimate it defines is replaced by an arbitrary one
+    (x2, P2 = L2 L2^T) while everything else the real code left on the filter object stays; step 2 must be the Kalman step from (x2, P2)."""
+    tag = f"n={n},m={m},{'redraw' if resample else 'no-redraw'},after {'an observed' if first == 'O' else 'an unobserved'} step"
+    with single_path(recip=True) as p:
+        chol = CholeskyStub()
+        rc = ResidualCut()
+        with Env(chol, rc):
+            owner, s = make_filter(n, resample, chol, tuned=False)
+            H, Lr = reals("H", m, n), lower("Lr", m)
+            R = Lr.dot(Lr.T)
+            y1, y2 = reals("y1", m), reals("y2", m)
+            F = s["F"]
+            if resample:
+                Lp = lower("Lp", n)
+                owner.q_matrix = Lp.dot(Lp.T) - F.dot(s["P"]).dot(F.T)
+                chol.register(Lp)
+            owner = _prod_step(owner, 60.0, [Obs(H, R, y1)] if first == "O" else [])
+            x2, L2 = reals("x2", n), lower("L2", n)
+            P2 = L2.dot(L2.T)
+            chol.register(L2)
+            owner.est_x, owner.est_p = x2, P2
+            Lq = lower("Lq", n)
+            if resample:
+                Q2 = Lq.dot(Lq.T) - F.dot(P2).dot(F.T)
+                chol.register(Lq)
+            else:
+                Q2 = Lq.dot(Lq.T)
+            owner.q_matrix = Q2
+            f = _prod_step(owner, 120.0, [Obs(H, R, y2)])
+        cons = p.constraints()
+        pp = F.dot(P2).dot(F.T) + Q2
+        Pi = pp if resample else F.dot(P2).dot(F.T)
+        S, C = H.dot(Pi).dot(H.T) + R, Pi.dot(H.T)
+
+        def inputs(mo):
+            return {"n": n, "m": m, "resample": resample, "first": first, "x": marray(mo, s["x"]), "L": marray(mo, s["L"]), "F": marray(mo, F), "H": marray(mo, H),
+                    "Lr": marray(mo, Lr), "Lq": marray(mo, Lq), "y1": marray(mo, y1), "y2": marray(mo, y2)}
+
+        kw = dict(linearize=True, timeout_ms=120000, inputs=inputs, replay=replay_history, soft=True)
+        rep.prove(f"pred_x[{tag}]", eq_arrays(f.pred_x, F.dot(x2)), cons, sample="second step: pred_x = F est_x", **kw)
+        rep.prove(f"pred_p[{tag}]", eq_arrays(f.pred_p, pp), cons, sample="second step: pred_p = F est_p F^T + Q whatever the first step left on the filter object", **kw)
+        rep.prove(f"innov_cvr[{tag}]", eq_arrays(f.innov_cvr, S), cons, sample="second step: innov_cvr = H Pi H^T + R", **kw)
+        rep.prove(f"cross_cvr[{tag}]", eq_arrays(f.cross_cvr, C), cons, sample="second step: cross_cvr = Pi H^T (Pi = pred_p when sigma points are redrawn, F P F^T otherwise)", **kw)
+        rep.prove(f"gain[{tag}]", eq_arrays(f.kalman_gain.dot(f.innov_cvr), f.cross_cvr), cons, sample="second step: K S = C", **kw)
+        rep.prove(f"est_x[{tag}]", eq_arrays(f.est_x, f.pred_x + f.kalman_gain.dot(y2 - H.dot(f.pred_x))), cons, sample="second step: est_x = pred_x + K (y - H pred_x)", **kw)
+        rep.prove(f"est_p[{tag}]", eq_arrays(f.est_p, f.pred_p - f.kalman_gain.dot(f.innov_cvr).dot(f.kalman_gain.T)), cons, sample="second step: est_p = pred_p - K S K^T", **kw)
+        rep.reachable(f"inputs[{tag}]", _pos(s["L"]) + _pos(Lr) + _pos(L2) + _pos(Lq))
+
+
 REPLAYS = {"O1": replay_predict, "O2": replay_update}
 
 
@@ -463,12 +565,20 @@ def obligations(tier):
     for (n, m, rs, sp) in cases:
         name = f"O2-n{n}m{m}{'r' if rs else 'k'}" + (f"s{sp}" if sp else "")
         obs.append(Ob(name, (lambda a: lambda rep: o2_update(rep, *a))((n, m, rs, sp)), f"update = Kalman update n={n} m={m} resample={rs} split={sp}", 600 if n < 3 else 1500))
+    for (n, m) in ((1, 1), (2, 1)) + (((2, 2),) if tier == "thorough" else ()):
+        for rs in (False, True):
+            for first in ("O", "-"):
+                name = f"O5-n{n}m{m}{'r' if rs else 'k'}-after{'obs' if first == 'O' else 'noobs'}"
+                obs.append(Ob(name, (lambda a: lambda rep: o5_history(rep, *a))((n, m, rs, first)),
+                              f"second step of a history on the production schedule (predict on a copy + result object, update on a copy): Kalman step from the current estimate, n={n} m={m} resample={rs}, first step {'observed' if first == 'O' else 'unobserved'}", 600))
     for n in (1, 2):
         obs.append(Ob(f"O4-n{n}", (lambda n: lambda rep: o4_noobs(rep, n))(n), "step without observations returns the propagated mean", 120))
     for name in list(REPLAYS):
         pass
     for o in obs:
-        if o.name.startswith("O1") or o.name.startswith("O4"):
+        if o.name.startswith("O5"):
+            REPLAYS[o.name] = replay_history
+        elif o.name.startswith("O1") or o.name.startswith("O4"):
             REPLAYS[o.name] = replay_predict
         else:
             REPLAYS[o.name] = replay_update
